@@ -3,6 +3,15 @@
 import json
 claimed = {
  "C01": ("online provenance invariant inside every simulated party (PERMIT table), over seeded iteration orders and fault plans", "5 C01"),
+ "C02": ("reference-model least fixpoint (PERMIT upper bound) decides underivability; party log and step/depth budget judge the refusal", "5 C02"),
+ "C03": ("party log + provenance on exact-match worlds with distractors under many seeded iteration orders", "5 C03"),
+ "C04": ("seeded fault plan (k-th execution of a party fails) vs error identity and ordered party log", "5 C04"),
+ "C05": ("EXPECT-model completeness oracle + one-outcome-class check of the same world across seeded iteration-order schedules", "5 C05"),
+ "C06": ("recovered panics and step/depth budgets over ill-behaved worlds, malformed options and generator faults", "5 C06"),
+ "C07": ("provenance of the converted value / identity of the executed party across seeded iteration-order schedules", "5 C07"),
+ "C10": ("differential Convert vs Call of a simulated identity target in one history under the same schedule", "5 C10"),
+ "C13": ("structured error fields vs reference model (hopeless parameters, supplied multiset, converter identity)", "5 C13"),
+ "C16": ("provenance of injected option instances under list transformations and seeded iteration orders", "5 C16"),
  "C18": ("differential vs Floyd-Warshall under seeded map-iteration schedules", "5 C18"),
  "C19": ("op-by-op refinement of an adjacency reference model over seeded histories", "5 C19"),
  "C20": ("differential vs Warshall-closure model under seeded map-iteration schedules", "5 C20"),
